@@ -60,6 +60,10 @@ CHECKS = {
   "reference-model monitor: an independent Type 1 reader and charstring decoder inspects every number token (value, encoded form) and the absolute path of charstrings the library wrote; exhaustive over -70000..70000 and all format boundaries",
   "Fonts whose glyph paths sweep the value ranges are written by the library and decoded by the harness's own reader (tokenizer + evaluator + ciphers + charstring decoder written from the Type 1 book). Every integer in -70000..70000, every number-format boundary and power of two +-3 up to 2^31 and the int32 extremes are used as coordinate deltas in every operand slot of the move, line and three curve commands, as advance widths (hsbw and sbw) and as stem values; each integer token must be in the form its range prescribes and decode to the requested value (all-integer glyphs exact). Fractional deltas (all k/q for q <= 107, near-integers, midpoints between neighbouring fractions, values just inside the bound) must appear as `p q div` with integer operands, and the absolute position of every point of paths with up to 1500/10000 fractional segments must stay within 1/214 of the request, for the independent decoder and for type1.Read alike.",
   "Trusted: harness/ref. Values between the enumerated ranges are sampled (32-bit), not exhausted."),
+ "C08": ("exploration", "DESIGN.md 11/C08",
+  "reference-model monitor: independent strict Type 1 reader (PFB de-framing, own PostScript tokenizer/evaluator, ciphers, charstring decoder) over all five output forms; byte-level clauses read off the output",
+  "Every output of Font.Write (PFA, PFB, binary, no-eexec) and Font.WritePDF for generated fonts is read by a decoder that shares no code or constants with the library: strict PFB framing (80 01|02 len32le segments adding up exactly, 80 03 with nothing after), eexec with 55665/52845/22719 and exactly four lead bytes, charstrings with 4330 and lenIV lead bytes, numbers and commands from the Type 1 book's tables, the font program itself executed by the harness's PostScript evaluator. Glyph set, absolute outlines, integer widths, stems, number forms, the glyph selected at each code, FontName, FontInfo, FontMatrix and Private entries (Type 1 defaults for absent keys) are compared with the font value; binary ciphertext must start with a non-white-space byte and have a non-hex byte among the first four; WritePDF's two lengths must be exactly the clear-text (ending in `eexec` + one white-space byte) and ciphertext sizes.",
+  "Trusted: harness/ref. A change made consistently to the library's reader and writer (invisible to every round-trip test) is visible here because the reference decoder does not share it."),
 }
 
 NOT_CLAIMED = {}
